@@ -51,7 +51,7 @@ pub enum Ev {
     Release(u16),
     /// The explorer sent the interrupt signal.
     Interrupt,
-    /// A user future drove a nested run (kind 1 = for_each_concurrent, 2 = fold_async, 3 = stream, 4 = for_each_concurrent with functions that yield twice, 5 = try_for_each_concurrent)
+    /// A user future drove a nested run (kind 1 = for_each_concurrent, 2 = fold_async, 3 = stream, 4 = for_each_concurrent with functions that stay pending for two polls, 5 = try_for_each_concurrent)
     /// on the same graph to its end from inside its own first poll.
     Nested(u16),
     /// User future i returned Pending after waking itself (yield_now-like): it is polled again
@@ -267,15 +267,25 @@ impl Future for Gate {
             s.ev.push(Ev::InterruptMid);
             (s.mid_int.as_ref().expect("checked"))();
         }
-        // a function that yields: wakes itself and returns Pending, so the library polls it again
-        // although nothing completed it
-        if first && !s.released[id] && s.selfwake_left > 0 && s.choose(2, 0) == 1 {
-            s.selfwake_left -= 1;
-            s.ev.push(Ev::SelfWake(id as u16));
-            s.wakers[id] = Some(cx.waker().clone());
-            drop(s);
-            cx.waker().wake_by_ref();
-            return Poll::Pending;
+        // a function that yields: wakes itself and returns Pending, so the library must poll it
+        // again although nobody completed it (1: it then waits to be completed from outside;
+        // 2: it finishes by itself at that next poll, like `yield_now().await` - if the wake-up is
+        // lost nothing else will ever complete it)
+        if first && !s.released[id] && s.selfwake_left > 0 {
+            let c = s.choose(3, 0);
+            if c > 0 {
+                s.selfwake_left -= 1;
+                s.ev.push(Ev::SelfWake(id as u16));
+                if c == 2 {
+                    s.released[id] = true;
+                    s.ev.push(Ev::Release(id as u16));
+                } else {
+                    s.wakers[id] = Some(cx.waker().clone());
+                }
+                drop(s);
+                cx.waker().wake_by_ref();
+                return Poll::Pending;
+            }
         }
         if s.released[id] {
             // a completing function may complete a sibling from inside its own poll (user futures
